@@ -41,3 +41,9 @@ Theorem c06_gram_by_batches (C O : IPS) (Snap : Type) (Xs : Snap -> C -> O) ds y
      forall d, rsum (map (fun batch => rsum (map (term C O Snap Xs ys c d) batch)) (batches ds bs es)) = 0).
 Proof. exact (normal_eqs_batches C O Snap Xs ds ys c b). Qed.
 Print Assumptions c06_gram_by_batches.
+
+(** The remaining source this property rests on is the recorded one (the six solver modules and solver_funcs): whole-function match,
+    regenerated on every run (closes the gap between "the expected statements are present" and "nothing else was added"). *)
+From SymfcG Require Import ShapesSolvers.
+Theorem c06_recorded_sources2_in_force : ShapesSolvers_as_recorded = true.
+Proof. repeat split; reflexivity. Qed.
